@@ -180,7 +180,6 @@ var specialLeaf = map[string]string{
 	"sync/atomic.Uint64":  "Int",
 	"sync/atomic.Uint32":  "Int",
 	"sync/atomic.Bool":    "Bool",
-	"sync.Map":            "Int",
 	"sync.Pool":           "Int",
 	"context.Context":     "Int",
 	"time.Location":       "Int",
@@ -259,6 +258,13 @@ func (sh *shaper) shapeOf1(t types.Type) *Shape {
 		if srt, ok := specialLeaf[qn]; ok && srt != "" {
 			return leafShape(t, srt)
 		}
+		if qn == "sync.Map" {
+			// modelled as a sequential map[string]any (keys must be strings)
+			ms := sh.shapeOf(types.NewMap(types.Typ[types.String], types.NewInterfaceType(nil, nil)))
+			c := *ms
+			c.T = t
+			return &c
+		}
 		u := tt.Underlying()
 		s := sh.shapeOf(u)
 		// keep named type on the shape (copy top-level)
@@ -332,13 +338,14 @@ const (
 )
 
 func anyShape(t types.Type) *Shape {
-	return &Shape{T: t, Kind: "any", Names: []string{"tag", "i", "r", "s", "b", "ref"}, Kids: []*Shape{
+	return &Shape{T: t, Kind: "any", Names: []string{"tag", "i", "r", "s", "b", "ref", "ty"}, Kids: []*Shape{
 		leafShape(types.Typ[types.Int], "Int"),
 		leafShape(types.Typ[types.Int64], "Int"),
 		leafShape(types.Typ[types.Float64], "Real"),
 		leafShape(types.Typ[types.String], "String"),
 		leafShape(types.Typ[types.Bool], "Bool"),
-		leafShape(types.Typ[types.Int], "Int"),
+		leafShape(types.Typ[types.UnsafePointer], "Int"), // reference payload
+		leafShape(types.Typ[types.Int], "Int"), // dynamic type id when tag == tagOther
 	}}
 }
 
@@ -399,6 +406,25 @@ func intBits(t types.Type) (bits int, signed bool, ok bool) {
 
 func pow2(n int) string {
 	return new(big.Int).Lsh(big.NewInt(1), uint(n)).String()
+}
+
+// typeID gives every dynamic type a stable small identifier.
+var typeIDs = map[string]int{}
+
+func typeID(t types.Type) int {
+	k := types.TypeString(types.Unalias(t), nil)
+	if id, ok := typeIDs[k]; ok {
+		return id
+	}
+	// deterministic: FNV-1a of the type string, folded
+	h := uint32(2166136261)
+	for i := 0; i < len(k); i++ {
+		h ^= uint32(k[i])
+		h *= 16777619
+	}
+	id := int(h%1000000000) + 100
+	typeIDs[k] = id
+	return id
 }
 
 func sortedKeys[V any](m map[string]V) []string {
